@@ -125,23 +125,17 @@ Definition dom_clause (x : coo Z) (o : c08op) : Z :=
   | ORoll s a =>
     let sl := match s with ShInt z => [z] | ShTup l => l end in
     match a with
-    | AxNone => if negb (d12_clause sh) then 12
-                else if negb (length sl =? 1)%nat then 21 else 0
+    | AxNone => if negb (length sl =? 1)%nat then 21 else 0
     | _ =>
       let k := length (ax_list a) in
       if negb (all_in_range nd (ax_list a)) then 0
-      else if (length sl =? 1)%nat && negb ((k =? length sh)%nat || (length sh =? 1)%nat || (k =? 1)%nat) then 11
-      else if (length sl =? 1)%nat && (k =? 0)%nat then 11
       else if negb (length sl =? 1)%nat && (k =? 1)%nat then 21
       else 0
     end
   | OReshape new =>
     if idx_eqb sh new then 0
-    else if negb (existsb (fun d => d =? -1) new) then 0
     else if (1 <? Z.of_nat (length (filter (fun d => d =? -1) new))) then 20
-    else if (size (filter (fun d => negb (d =? -1)) new) =? 0) && negb (size sh =? 0) then 19
-    else if negb (d12_clause sh) then 12 else 0
-  | OFlatten => if idx_eqb sh [-1] then 0 else if negb (d12_clause sh) then 12 else 0
+    else 0
   | OSqueeze a =>
     match a with
     | AxNone => 0
